@@ -68,6 +68,22 @@ def known(d):
     return None
 
 
+def corpus_cases():
+    """handles that outlive their file (the path removed, re-created as a file or as a directory with children, its
+    parent removed, then written / flushed / dropped) and every operation on every kind of target, wrong types
+    included; each followed by probes of the whole universe"""
+    kinds = ["mem", "phys", "alt_mem", "ovl_mm", "ovl_m", "ovl_sub", "alt_ovl"]
+    cases = []
+    for c in hist.stale_handle_cases("c03", kinds):
+        c.probe_steps = universe.add_probes(c, c.cfg.target, ["a", "x", "c"], depth=2, extra=[("a", "x", "c"), ("a", "x", "x")])
+        cases.append(c)
+    for c in hist.matrix_cases("c03", kinds):
+        c.probe_steps = universe.add_probes(c, c.cfg.target, ["d", "e", "f", "g", "m", "zz"], depth=2,
+                                            extra=[("d", "e", "h"), ("d", "e", "in"), ("g", "zz", "d")])
+        cases.append(c)
+    return cases
+
+
 class P3(histprop.HistProp):
     def generate(self, rng, tier):
         n = self.quick_cases if tier == "quick" else self.thorough_cases
@@ -85,12 +101,13 @@ class P3(histprop.HistProp):
         return cases
 
 
-P = P3("C03", CONFIGS, typed=False, quick_cases=8, thorough_cases=100, nops=(10, 22), oracle=oracle, known=known,
+P = P3("C03", CONFIGS, typed=False, corpus_cases=corpus_cases, quick_cases=8, thorough_cases=100, nops=(10, 22), oracle=oracle, known=known,
        rule=("untyped histories (every call on every path of a 3-name universe, file calls on directories and directory "
              "calls on files included; removal of the root excluded) on all 15 configurations with pre-populated lower "
              "layers; after each history every universe path of depth <= 2 (and a depth-3 sample) is probed with all "
              "observers; oracle on the implementation alone: the root is an existing directory and every existing path "
              "has an existing parent directory; all outcomes and snapshots are also compared with the model"),
-       assumptions=["the abstract write-handle exclusion of C01 is kept (paths with an open write handle are not touched)"])
+       assumptions=["random histories keep C01's write-handle exclusion; the directed corpus does not (handles outliving "
+                    "their file in five ways on seven configurations)"])
 generate, corpus, run_and_compare = P.generate, P.corpus, P.run_and_compare
 RULE, ASSUMPTIONS, BUILDS = P.RULE, P.ASSUMPTIONS, P.BUILDS
